@@ -804,6 +804,73 @@ pub fn cli_stream(src: Fmt, detect: bool, to: Fmt, channel: Channel, batches: us
     }
 }
 
+/// A stream in a FILE that cannot be mapped because the process's address space is smaller than the file
+/// (RLIMIT_AS): the reader fallback has to stream it - all documents translated, within the limit.
+pub fn cli_unmappable_file(src: Fmt, docs: usize, limit_mib: u64, acc: &mut Acc) {
+    use std::os::unix::process::CommandExt as _;
+    use std::process::{Command, Stdio};
+    acc.evals += 1;
+    let one = run_slice(&cli_doc(src, 1), Some(src), Fmt::Json);
+    if !one.verdict.is_ok() {
+        acc.inconclusive += 1;
+        return;
+    }
+    let sc = crate::procmon::Scratch::new();
+    let name = format!("stream.{}", src.name());
+    {
+        let mut f = std::io::BufWriter::new(std::fs::File::create(sc.path().join(&name)).expect("scratch file"));
+        for i in 0..docs {
+            let _ = f.write_all(&cli_doc(src, i));
+        }
+    }
+    let size = std::fs::metadata(sc.path().join(&name)).map(|m| m.len()).unwrap_or(0);
+    let _g = crate::procmon::shared_guard();
+    let mut cmd = Command::new(crate::procmon::release_bin());
+    cmd.current_dir(sc.path()).env_clear().args(["-t", "json", &name]).stdin(Stdio::null()).stdout(Stdio::piped()).stderr(Stdio::piped());
+    let limit = limit_mib << 20;
+    // SAFETY: only an async-signal-safe call between fork and exec
+    unsafe {
+        cmd.pre_exec(move || {
+            let lim = libc::rlimit { rlim_cur: limit, rlim_max: limit };
+            if libc::setrlimit(libc::RLIMIT_AS, &lim) != 0 {
+                return Err(std::io::Error::last_os_error());
+            }
+            Ok(())
+        });
+    }
+    let Ok(mut child) = cmd.spawn() else {
+        acc.inconclusive += 1;
+        return;
+    };
+    drop(cmd);
+    let mut so = child.stdout.take().unwrap();
+    let counter = std::thread::spawn(move || {
+        let mut buf = [0u8; 65536];
+        let mut n = 0u64;
+        loop {
+            match so.read(&mut buf) {
+                Ok(0) | Err(_) => break,
+                Ok(k) => n += k as u64,
+            }
+        }
+        n
+    });
+    let mut se = child.stderr.take().unwrap();
+    let mut err = vec![];
+    let _ = se.read_to_end(&mut err);
+    let status = child.wait();
+    let got = counter.join().unwrap_or(0);
+    acc.count("cli_unmappable_file_runs");
+    acc.max("largest_unmappable_file_bytes", size);
+    let want = docs as u64 * one.out.len() as u64;
+    let ok = status.as_ref().map(|s| s.success()).unwrap_or(false) && got == want;
+    if ok {
+        acc.count("cli_unmappable_file_streamed_in_full");
+    } else {
+        acc.violation(Violation { sig: format!("command line: a {} file larger than the address space is not streamed", src.name()), case: json!({"part": "cli_unmappable", "source": src.name(), "documents": docs, "limit_mib": limit_mib}), observed: format!("status {:?}; {} of {} output bytes; stderr [{}]", status.map(|s| s.to_string()), got, want, crate::model::preview(&err, 200)), expected: format!("exit 0 and all {docs} documents ({size} bytes of input under an address-space limit of {limit_mib} MiB)") });
+    }
+}
+
 pub fn specs(ctx: &Ctx) -> Vec<StreamSpec> {
     let mut v = vec![];
     let mut rng = Rng::derive(ctx.seed, 0xc05, 0);
@@ -855,9 +922,16 @@ pub fn run(ctx: &Ctx) -> i32 {
         cli_stream(src, detect, to, channel, batches, per_batch, acc);
     });
     acc.merge(cli_acc);
-    let rule = format!("{} streams: sources JSON/MessagePack/YAML x targets JSON/MessagePack/YAML x 6 packetisations (one document per read, three per read, half a document, single bytes, 100 KB blocks, random) x explicit/detected x document size classes (tiny, ~1 KiB generated, ~50 KiB, ~300 KiB; YAML streams also open with a flow sequence, a flow mapping or an unmarked block mapping, use CR or CRLF line breaks throughout, or - one in seven - are UTF-16LE/BE or UTF-32LE/BE throughout) x stream lengths up to {} documents, generated on the fly with O(1) harness memory; the lag invariant is evaluated at EVERY read() call; peak live heap measured with a counting allocator per call and compared with the same stream at a tenth of the length; live heap sampled at the deciles of every stream of >= 1000 documents (steady growth over the second half = a per-document leak); plus the release binary fed {} batches of {} documents through a pipe, a connected AF_UNIX socket and a named FIFO (3 sources x named/detected, rotating target): after every batch, with the input still open, all but the last three documents delivered so far (less the 8 KiB stdout buffer) must have been translated (bounded wait, re-examined with a long wait before it counts), and the resident set may not grow with the stream; distinct non-trivial = distinct stream specifications", sp.len(), if ctx.thorough() { 300000 } else { 3000 }, batches, per_batch);
+    // a file operand larger than the process's address space (it cannot be mapped: the reader fallback streams it)
+    let un: Vec<(Fmt, usize, u64)> = if ctx.thorough() { vec![(Fmt::Json, 3_000_000, 96), (Fmt::Yaml, 2_000_000, 96), (Fmt::Msgpack, 3_000_000, 96)] } else { vec![(Fmt::Json, 1_500_000, 64), (Fmt::Msgpack, 2_000_000, 64)] };
+    let un_acc = crate::par::run(un.len(), 1, |i, acc| {
+        let (src, docs, limit) = un[i];
+        cli_unmappable_file(src, docs, limit, acc);
+    });
+    acc.merge(un_acc);
+    let rule = format!("{} streams: sources JSON/MessagePack/YAML x targets JSON/MessagePack/YAML x 6 packetisations (one document per read, three per read, half a document, single bytes, 100 KB blocks, random) x explicit/detected x document size classes (tiny, ~1 KiB generated, ~50 KiB, ~300 KiB; YAML streams also open with a flow sequence, a flow mapping or an unmarked block mapping, use CR or CRLF line breaks throughout, or - one in seven - are UTF-16LE/BE or UTF-32LE/BE throughout) x stream lengths up to {} documents, generated on the fly with O(1) harness memory; the lag invariant is evaluated at EVERY read() call; peak live heap measured with a counting allocator per call and compared with the same stream at a tenth of the length; live heap sampled at the deciles of every stream of >= 1000 documents (steady growth over the second half = a per-document leak); plus the release binary fed {} batches of {} documents through a pipe, a connected AF_UNIX socket and a named FIFO (3 sources x named/detected, rotating target): after every batch, with the input still open, all but the last three documents delivered so far (less the 8 KiB stdout buffer) must have been translated (bounded wait, re-examined with a long wait before it counts), and the resident set may not grow with the stream; plus file operands of 80-180 MB under an address-space limit of 64 / 96 MiB (the file cannot be mapped; the reader fallback has to stream it in full); distinct non-trivial = distinct stream specifications", sp.len(), if ctx.thorough() { 300000 } else { 3000 }, batches, per_batch);
     ev::finish(
-        Finish { ctx, level: "exploration", rule, assumptions: vec!["memory bound constants: 2 MiB + 128 x largest document; growth slack 128 KiB (measured slack on the pinned tree: < 16 KiB, worst ratio 46 for dense YAML)".into(), "the harness's own allocations during a call are bounded by one packet plus a few queue entries".into(), "command-line streams: 'arrives' is decided by a bounded wait (20 s, then 90 s in a second run) on a logical condition; the resident set is read from /proc/<pid>/statm".into()], extra: serde_json::Map::new(), exhaustive: false, min_distinct: 100, must_reach: vec![("read_calls_monitored".into(), 10000), ("length_pairs_compared".into(), 20), ("live_heap_decile_series_compared".into(), 20), ("streams_yaml_detected".into(), 5), ("streams_json_detected".into(), 5), ("streams_msgpack_detected".into(), 5), ("yaml_streams_in_utf16_or_utf32".into(), 8), ("cli_stream_batches_translated_while_the_input_was_open".into(), 100), ("cli_stream_Socket".into(), 6), ("cli_stream_memory_flat".into(), 10)] },
+        Finish { ctx, level: "exploration", rule, assumptions: vec!["memory bound constants: 2 MiB + 128 x largest document; growth slack 128 KiB (measured slack on the pinned tree: < 16 KiB, worst ratio 46 for dense YAML)".into(), "the harness's own allocations during a call are bounded by one packet plus a few queue entries".into(), "command-line streams: 'arrives' is decided by a bounded wait (20 s, then 90 s in a second run) on a logical condition; the resident set is read from /proc/<pid>/statm".into()], extra: serde_json::Map::new(), exhaustive: false, min_distinct: 100, must_reach: vec![("read_calls_monitored".into(), 10000), ("length_pairs_compared".into(), 20), ("live_heap_decile_series_compared".into(), 20), ("streams_yaml_detected".into(), 5), ("streams_json_detected".into(), 5), ("streams_msgpack_detected".into(), 5), ("yaml_streams_in_utf16_or_utf32".into(), 8), ("cli_stream_batches_translated_while_the_input_was_open".into(), 100), ("cli_stream_Socket".into(), 6), ("cli_stream_memory_flat".into(), 10), ("cli_unmappable_file_streamed_in_full".into(), 2)] },
         acc,
     )
 }
@@ -867,6 +941,13 @@ pub fn mem_main(_args: &[String]) -> i32 {
 }
 
 pub fn replay(v: &Value) -> i32 {
+    if v["case"]["part"].as_str() == Some("cli_unmappable") {
+        let c = &v["case"];
+        let Some(src) = c["source"].as_str().and_then(Fmt::parse) else { return 2 };
+        let mut acc = Acc::default();
+        cli_unmappable_file(src, c["documents"].as_u64().unwrap_or(1_500_000) as usize, c["limit_mib"].as_u64().unwrap_or(64), &mut acc);
+        return if acc.vio_count > 0 { println!("VIOLATION property=C05 replay=<this file> (reproduced): {}", acc.violations[0].observed); 1 } else { println!("not reproduced"); 0 };
+    }
     if v["case"]["part"].as_str() == Some("cli_stream") {
         let c = &v["case"];
         let (Some(src), Some(to)) = (c["source"].as_str().and_then(Fmt::parse), c["to"].as_str().and_then(Fmt::parse)) else { return 2 };
